@@ -75,7 +75,7 @@ Definition import_target (sdir : list bytes) (idb rest : bytes) : list bytes :=
   clean_comps (rev sdir) (split_on c_slash (idb ++ c_under :: rest)).
 
 Inductive mkind := MFile | MDir | MTarErr.   (* MTarErr: tar.Reader.Next fails here (truncated / malformed stream) *)
-Record member := { m_name : bytes; m_kind : mkind }.
+Record member := { m_name : bytes; m_kind : mkind; m_body : bytes }.
 
 Fixpoint list_beq (a b : list bytes) : bool :=
   match a, b with
@@ -126,6 +126,43 @@ Definition strictly_below (sdir tgt : list bytes) : bool :=
   match strip_prefix sdir tgt with
   | Some (c :: rel) => forallb plain_comp (c :: rel)
   | _ => false
+  end.
+
+(* The same loop with file CONTENTS. writeOneSnapshotFile opens with O_CREATE|O_RDWR -- no O_TRUNC -- and copies the
+   member body from offset 0: an existing file (left by an earlier member with the same target, or already in the
+   directory) is overwritten from the start and keeps its tail when it was longer. [fs]: path -> content of the regular
+   files in the snapshots directory (latest binding first). Output: (path, content after the write) per write. *)
+Definition overlay (old data : bytes) : bytes := data ++ skipn (length data) old.
+
+Fixpoint path_lookup (p : list bytes) (fs : list (list bytes * bytes)) : option bytes :=
+  match fs with
+  | [] => None
+  | (q, c) :: r => if list_beq q p then Some c else path_lookup p r
+  end.
+
+Fixpoint import_writes (sdir : list bytes) (idb : bytes) (dirs : list (list bytes)) (fs : list (list bytes * bytes))
+  (ms : list member) (export_found : bool) : list (list bytes * bytes) * bool :=
+  match ms with
+  | [] => ([], export_found)
+  | m :: r =>
+      match m_kind m with
+      | MTarErr | MDir => ([], false)
+      | MFile =>
+          if contains s_dotdotslash (m_name m) then ([], false)
+          else if beq (m_name m) s_content_json then import_writes sdir idb dirs fs r export_found
+          else if beq (m_name m) s_export_json then import_writes sdir idb dirs fs r true
+          else match cut_first c_under (m_name m) with
+               | None => ([], false)
+               | Some (_, rest) =>
+                   let tgt := import_target sdir idb rest in
+                   if can_create sdir dirs tgt
+                   then let old := match path_lookup tgt fs with Some c => c | None => [] end in
+                        let c := overlay old (m_body m) in
+                        let (w, ok) := import_writes sdir idb dirs ((tgt, c) :: fs) r export_found in
+                        ((tgt, c) :: w, ok)
+                   else ([], false)
+               end
+      end
   end.
 
 (* ================================================================ restore *)
@@ -291,6 +328,35 @@ Fixpoint pstates_eqb (a b : list pstate) : bool :=
   | _, _ => false
   end.
 
+(* ================================================================ Reader.Check *)
+
+(* one entry of the SHA3_384 map of the snapshot with what the zip file holds for it. Contents are opaque identifiers
+   (ideal digest: equal digests <-> equal contents). *)
+Record zentry := {
+  z_user : option bytes;   (* Some u: the entry is user/<u>.tgz; None: any other entry (archive.tgz) *)
+  z_present : bool;        (* zipMember finds the member *)
+  z_read_ok : bool;        (* reading it to the end gives no error *)
+  z_reported : N;          (* size in the zip header *)
+  z_read : N;              (* bytes actually read *)
+  z_actual : N;            (* the content read *)
+  z_recorded : N           (* the content whose SHA3-384 is recorded for the entry *)
+}.
+
+(* Reader.checkOne *)
+Definition check_one (z : zentry) : bool :=
+  z_present z && z_read_ok z && (z_read z =? z_reported z) && (z_actual z =? z_recorded z).
+
+(* the entry is looked at: not (len(usernames) > 0 && isUserArchive(entry) && username not in usernames) *)
+Definition selected (users : list bytes) (z : zentry) : bool :=
+  match z_user z with
+  | Some u => is_nil_b users || existsb (beq u) users
+  | None => true
+  end.
+
+(* Reader.Check: nil error? (the map order does not matter: the first failing entry ends the loop) *)
+Definition check (users : list bytes) (zs : list zentry) : bool :=
+  forallb (fun z => negb (selected users z) || check_one z) zs.
+
 (* well-formedness assumed by the theorems: real names are even (backup names are odd, hence fresh), revision
    directory names are not `common` *)
 Definition even_name (n : name) : bool := N.even n.
@@ -304,15 +370,17 @@ Definition wf_case (cur : option name) (es : list (pstate * rentry)) : bool :=
 (* ================================================================ correspondence interface *)
 
 Inductive case :=
-| ImportCase (sdir : list bytes) (idb : bytes) (dirs : list (list bytes)) (ms : list member)
-             (obs_written : list (list bytes)) (obs_ok : bool) (obs_outside_unchanged : bool)
+| ImportCase (sdir : list bytes) (idb : bytes) (dirs : list (list bytes)) (files : list (list bytes * bytes))
+             (ms : list member)
+             (obs_written : list (list bytes * bytes)) (obs_ok : bool) (obs_outside_unchanged : bool)
 | RestoreCase (cur : option name) (es : list (pstate * rentry)) (a : after)
-              (obs_ok : bool) (obs_final : list pstate).
+              (obs_ok : bool) (obs_final : list pstate)
+              (users : list bytes) (zs : list zentry) (obs_check_ok : bool).
 
-Fixpoint paths_eqb (a b : list (list bytes)) : bool :=
+Fixpoint writes_eqb (a b : list (list bytes * bytes)) : bool :=
   match a, b with
   | [], [] => true
-  | x :: a', y :: b' => list_beq x y && paths_eqb a' b'
+  | (p, c) :: a', (q, d) :: b' => list_beq p q && beq c d && writes_eqb a' b'
   | _, _ => false
   end.
 
@@ -320,12 +388,12 @@ Definition big_fuel : nat := 1000.     (* no injected failure: the real run has 
 
 Definition mismatch (c : case) : bool :=
   match c with
-  | ImportCase sdir idb dirs ms ow ook _ =>
-      let (w, ok) := import_run sdir idb dirs ms false in
-      negb (paths_eqb w ow && Bool.eqb ok ook)
-  | RestoreCase cur es a ook ofinal =>
+  | ImportCase sdir idb dirs files ms ow ook _ =>
+      let (w, ok) := import_writes sdir idb dirs files ms false in
+      negb (writes_eqb w ow && Bool.eqb ok ook)
+  | RestoreCase cur es a ook ofinal users zs ocheck =>
       let (ok, final) := restore cur es big_fuel a in
-      negb (Bool.eqb ok ook && pstates_eqb final ofinal)
+      negb (Bool.eqb ok ook && pstates_eqb final ofinal && Bool.eqb (check users zs) ocheck)
   end.
 
 (* expected content of name n in a parent after a successful restore of entry e (before Cleanup) *)
@@ -336,21 +404,36 @@ Definition expected_after (cur : option name) (init : pstate) (e : rentry) (n : 
   else if n =? revdir then match lookup (e_rev e) (e_extracted e) with Some t => Some t | None => old end
   else old.
 
+(* ... and of the backup names: the tree that was moved aside, when something was moved *)
+Definition init_lookup (init : pstate) (n : name) : option tree :=
+  match init with Some d => lookup n d | None => None end.
+Definition expected_backup (cur : option name) (init : pstate) (e : rentry) (n : name) : option tree :=
+  let revdir := match cur with Some c => c | None => e_rev e end in
+  if n =? bk common then match lookup common (e_extracted e) with Some _ => init_lookup init common | None => None end
+  else if n =? bk revdir then match lookup (e_rev e) (e_extracted e) with Some _ => init_lookup init revdir | None => None end
+  else None.
+(* the complete expected content of a parent after a successful restore, then nothing (ANone) or Cleanup *)
+Definition expected_lookup (cur : option name) (a : after) (init : pstate) (e : rentry) (n : name) : option tree :=
+  if N.even n then expected_after cur init e n
+  else match a with ACleanup => None | _ => expected_backup cur init e n end.
+
+Definition opt_tree_eqb (a b : option tree) : bool :=
+  match a, b with
+  | Some x, Some y => x =? y
+  | None, None => true
+  | _, _ => false
+  end.
+
+(* the final directory equals the expected content on every name that occurs anywhere (hence on every name) *)
 Definition success_ok (cur : option name) (a : after) (se : pstate * rentry) (fin : pstate) : bool :=
   let (init, e) := se in
   match fin with
   | None => false
   | Some d =>
       let revdir := match cur with Some c => c | None => e_rev e end in
-      let real := common :: revdir :: match init with Some d0 => names_of d0 | None => [] end in
-      forallb (fun n => match lookup n d, expected_after cur init e n with
-                        | Some x, Some y => x =? y
-                        | None, None => true
-                        | _, _ => false
-                        end) real &&
-      (* nothing else appears except backups (odd names), and none of those after Cleanup *)
-      forallb (fun n => if even_name n then existsb (N.eqb n) real
-                        else match a with ACleanup => false | _ => true end) (names_of d)
+      let names := common :: revdir :: bk common :: bk revdir :: names_of d ++
+                   match init with Some d0 => names_of d0 | None => [] end in
+      forallb (fun n => opt_tree_eqb (lookup n d) (expected_lookup cur a init e n)) names
   end.
 
 Fixpoint success_all (cur : option name) (a : after) (es : list (pstate * rentry)) (fin : list pstate) : bool :=
@@ -366,12 +449,16 @@ Fixpoint success_all (cur : option name) (a : after) (es : list (pstate * rentry
    extracted trees and leaves everything else alone *)
 Definition monitor_fail (c : case) : bool :=
   match c with
-  | ImportCase sdir idb dirs ms ow ook unchanged =>
-      negb (forallb (strictly_below sdir) ow && unchanged)
-  | RestoreCase cur es a ook ofinal =>
-      if negb ook then negb (pstates_eqb ofinal (map fst es))
-      else match a with
-           | ARevert => negb (pstates_eqb ofinal (map fst es))
-           | _ => negb (success_all cur a es ofinal)
-           end
+  | ImportCase sdir idb dirs files ms ow ook unchanged =>
+      negb (forallb (strictly_below sdir) (map fst ow) && unchanged)
+  | RestoreCase cur es a ook ofinal users zs ocheck =>
+      (if negb ook then negb (pstates_eqb ofinal (map fst es))
+       else match a with
+            | ARevert => negb (pstates_eqb ofinal (map fst es))
+            | _ => negb (success_all cur a es ofinal)
+            end)
+      (* Check succeeds iff every entry it looks at is present, readable, of the reported size and of the recorded digest *)
+      || negb (Bool.eqb ocheck
+                 (forallb (fun z => negb (selected users z) ||
+                                    (z_present z && z_read_ok z && (z_read z =? z_reported z) && (z_actual z =? z_recorded z))) zs))
   end.
